@@ -116,6 +116,9 @@ func init() {
 
 var scratch string
 
+// nondetCode: the determinism self-check failed on the code under test (see checkCmd).
+var nondetCode bool
+
 // curEngine is the engine of the property being checked (worker invocation differs for B).
 var curEngine string
 
@@ -595,8 +598,16 @@ func checkCmd(p *propCfg, tier, repo string, writeEvidence bool) int {
 		}
 	}
 	if !detOK {
-		fmt.Fprintf(os.Stderr, "verifctl: determinism self-check FAILED: same seeds produced different event logs\n")
-		return 2
+		// The code under test contains nondeterminism the simulator does not own (typically a
+		// select over several ready channels, whose choice the Go runtime draws).  On the
+		// unchanged tree this never happens.  A violation found in such a run is still a real
+		// execution of the real code: it is reported if a fresh process reproduces its class,
+		// without the exact-replay guarantee; with no violation the run is machinery trouble.
+		fmt.Fprintf(os.Stderr, "verifctl: determinism self-check FAILED: same seeds produced different event logs (the code under test has nondeterminism the simulator does not own)\n")
+		nondetCode = true
+		if len(agg.byKey) == 0 {
+			return 2
+		}
 	}
 
 	// violations: one representative per (class, site), shrunk and confirmed in fresh processes
